@@ -12,6 +12,7 @@ Tables (regenerated on every run): Gen/Pratt (parser/expr.rs), Gen/Expand (ast_e
  T5  sql_tree_meaning              per-operator meaning of the SQL the emitter chooses.
 -/
 import PrqlModel.Lemmas.Pratt
+import PrqlModel.Lemmas.ExprSem
 import PrqlModel.Model.SqlPrec
 namespace Props.C02
 open Gen.Pratt Model.PExpr Model.Pratt Lemmas.Pratt
@@ -44,6 +45,53 @@ example : parseToks [.atom (.col 0), .sym (.ctrl '-'), .lp, .atom (.col 1), .sym
     = some (.bin .Sub (.col 0) (.bin .Pow (.bin .Sub (.col 1) (.col 2)) (.un .Neg (.col 3)))) := by decide
 /-- `- -a` is not an expression: the operand of a unary operator is a bare term -/
 example : parseToks [.sym (.ctrl '-'), .sym (.ctrl '-'), .atom (.col 0)] = none := by decide
+
+/-! ## T3  expansion and static evaluation -/
+open Lemmas.ExprSem Model.Val
+
+/-- T3 (full statement): compile-time simplification never changes the value -/
+def StaticEvalSound : Prop := ∀ (e : PExpr) (ρ : Env), evalP ρ (staticEval e) = evalP ρ e
+
+/-- T3 is FALSE on the unchanged tree: `(case [5 == 2 => a]) != 3 - a` folds to `null != 3 - a`, which the null-comparison
+rule reads as "3 - a is not null": the value changes from NULL to true -/
+theorem static_eval_sound_counterexample : ¬ StaticEvalSound := by
+  intro h
+  have := h (.bin .Ne (.caseB (.bin .Eq (.lit (.int 5)) (.lit (.int 2))) (.col 0) .caseEnd) (.bin .Sub (.lit (.int 3)) (.col 0)))
+    [.num 1]
+  revert this; decide +kernel
+
+/-- T3 (partial): static evaluation keeps the meaning of every expression in which folding does not turn an operand of
+`==`/`!=` (or a bound of `in`) into the literal null; strings have no value in this model -/
+theorem static_eval_sound_partial (ρ : Env) (e : PExpr) (hs : noStr e = true) (hn : nullStable e = true) :
+    evalP ρ (staticEval e) = evalP ρ e := sev_sound ρ false e hs hn
+
+-- non-vacuity: `case [1 == 2 => a, true => -(3) + b] ?? (null ?? c)` is string-free and null-stable, and it does fold
+example : nullStable (.bin .Coalesce (.caseB (.bin .Eq (.lit (.int 1)) (.lit (.int 2))) (.col 0)
+    (.caseB (.lit (.bool true)) (.bin .Add (.un .Neg (.lit (.int 3))) (.col 1)) .caseEnd)) (.bin .Coalesce (.lit .null) (.col 2))) = true := by decide
+example : staticEval (.bin .Coalesce (.caseB (.bin .Eq (.lit (.int 1)) (.lit (.int 2))) (.col 0)
+    (.caseB (.lit (.bool true)) (.bin .Add (.un .Neg (.lit (.int 3))) (.col 1)) .caseEnd)) (.bin .Coalesce (.lit .null) (.col 2)))
+    = .bin .Coalesce (.bin .Add (.lit (.int (-3))) (.col 1)) (.col 2) := by decide
+
+/-- expansion of the surface operators (full statement) -/
+def ExpandSound : Prop := ∀ (e : SExpr) (ρ : Env), evalP ρ (expand e) = evalDoc ρ e
+
+/-- FALSE on the unchanged tree: `a == +null` is a comparison with an expression, the expanded tree compares with the literal -/
+theorem expand_sound_counterexample : ¬ ExpandSound := by
+  intro h
+  have := h (.bin .Eq (.col 0) (.un .Add (.lit .null))) [.num 1]
+  revert this; decide +kernel
+
+theorem expand_sound_partial (ρ : Env) (e : SExpr) (h : nullStableS e = true) :
+    evalP ρ (expand e) = evalDoc ρ e := expand_sound ρ e h
+
+/-- the resolved tree means what the source tree means (pow argument swap, `+x`, `in`, user functions, folding) -/
+theorem resolved_tree_meaning (ρ : Env) (e : SExpr) (h1 : nullStableS e = true) (h2 : noStr (expand e) = true)
+    (h3 : nullStable (expand e) = true) : evalP ρ (staticEval (expand e)) = evalDoc ρ e := by
+  rw [static_eval_sound_partial ρ _ h2 h3, expand_sound_partial ρ e h1]
+
+-- non-vacuity: `2 ** a - (b | in 1..null)`
+example : nullStableS (.bin .Sub (.bin .Pow (.lit (.int 2)) (.col 0)) (.inRange (.col 1) (.lit (.int 1)) (.lit .null))) = true := by decide
+example : nullStable (expand (.bin .Sub (.bin .Pow (.lit (.int 2)) (.col 0)) (.inRange (.col 1) (.lit (.int 1)) (.lit .null)))) = true := by decide
 
 /-! ## T4  the emitter as a printer, SQLite as the parser -/
 open Model.SqlPrec PrecU Gen.SqlOps
